@@ -157,20 +157,23 @@ inductive Head where
   | stall (notified : Bytes) (c : Conn)
   deriving DecidableEq
 
-/-- `Stream.read_response`: the `while True` loop -/
-def readHead : Nat → Conn → Bytes → Nat → Bytes → Head
-  | 0, c, _, _, nt => .exc .RecursionError nt c
-  | fuel + 1, c, block, nread, nt =>
+/-- the bytes of the lines read so far (`ls` is newest-first) -/
+def flatRev (ls : List Bytes) : Bytes := ls.reverse.flatten
+
+/-- `Stream.read_response`: the `while True` loop.  `ls` = header lines read so far, newest first. -/
+def readHead : Nat → Conn → List Bytes → Nat → Head
+  | 0, c, ls, _ => .exc .RecursionError (flatRev ls) c
+  | fuel + 1, c, ls, nread =>
     match c.readline with
-    | .tooLong => .exc .ProtocolError nt c
-    | .stall => .stall nt c
+    | .tooLong => .exc .ProtocolError (flatRev ls) c
+    | .stall => .stall (flatRev ls) c
     | .line l c' =>
-      let nt' := nt ++ l
-      if l.getLast? != some 10 then .exc .NetworkError nt' c'
+      if l.getLast? != some 10 then .exc .NetworkError (flatRev (l :: ls)) c'
       else if l == [13, 10] || l == [10] then
-        (if block.isEmpty then .exc .ProtocolError nt' c' else .ok block nt' c')
-      else if nread + l.length > 32768 then .exc .ProtocolError nt' c'
-      else readHead fuel c' (block ++ l) (nread + l.length) nt'
+        (if ls.isEmpty then .exc .ProtocolError (flatRev (l :: ls)) c'
+         else .ok (flatRev ls) (flatRev (l :: ls)) c')
+      else if nread + l.length > 32768 then .exc .ProtocolError (flatRev (l :: ls)) c'
+      else readHead fuel c' (l :: ls) (nread + l.length)
 
 /-! ## framing decisions -/
 
@@ -285,11 +288,11 @@ def lengthLoop {D} (dc : Decoder D) : Nat → Nat → Conn → Acc D → Res D
         else if d.length > left then
           match a.data dc (d.take left) with
           | .ok a' => .ok a' c' true
-          | .error e => .exc e a c'
+          | .error e => .exc e (a.note (d.take left)) c'
         else
           match a.data dc d with
           | .ok a' => lengthLoop dc fuel (left - d.length) c' a'
-          | .error e => .exc e a c'
+          | .error e => .exc e (a.note d) c'
 
 /-- `_read_body_until_close`: the `while True` loop -/
 def closeLoop {D} (dc : Decoder D) : Nat → Conn → Acc D → Res D
@@ -301,7 +304,7 @@ def closeLoop {D} (dc : Decoder D) : Nat → Conn → Acc D → Res D
       if d.isEmpty then .ok a c' false
       else match a.data dc d with
         | .ok a' => closeLoop dc fuel c' a'
-        | .error e => .exc e a c'
+        | .error e => .exc e (a.note d) c'
 
 /-- `read_chunk_body` until the chunk data is exhausted (`bytes_left = 0`) or EOF.
 `ok _ _ true` = the peer closed inside the chunk data (the code then falls into the
@@ -316,7 +319,7 @@ def chunkDataLoop {D} (dc : Decoder D) : Nat → Nat → Conn → Acc D → Res 
         if d.isEmpty then .ok a c' true
         else match a.data dc d with
           | .ok a' => chunkDataLoop dc fuel (left - d.length) c' a'
-          | .error e => .exc e a c'
+          | .error e => .exc e (a.note d) c'
 
 inductive Trailer where
   | ok (data : Bytes) (c : Conn)
@@ -446,7 +449,7 @@ bytes `w` under the schedule `σ`. -/
 def decode {D} (dc : Decoder D) (cfg : StreamCfg) (req : ReqInfo) (σ : List Nat) (w : Wire) : Result :=
   let fuel := w.bytes.length + 2
   let c0 : Conn := { rest := w.bytes, eof := w.eof, sched := σ }
-  match readHead fuel c0 [] 0 [] with
+  match readHead fuel c0 [] 0 with
   | .exc e nt c => mkResult w (.exc e) true nt c
   | .stall nt c => mkResult w .stalled false nt c
   | .ok block nt c =>
